@@ -545,9 +545,36 @@ func (lp *linProver) factsAt(par map[ast.Node]ast.Node, e ast.Expr) []linFact {
 	}, nil)
 	var out []linFact
 	for _, f := range raw {
-		be, ok := core.Unparen(f.Expr).(*ast.BinaryExpr)
-		if !ok || f.Tag != nil {
+		if f.Tag != nil {
 			continue
+		}
+		// strings.HasPrefix / HasSuffix(s, p) holds: len(s) >= len(p)
+		if call, ok := core.Unparen(f.Expr).(*ast.CallExpr); ok && f.Val && len(call.Args) == 2 {
+			if cf := core.Callee(lp.inf, call); core.IsFunc(cf, "strings", "HasPrefix") || core.IsFunc(cf, "strings", "HasSuffix") {
+				out = append(out, linFact{lp.lenOf(call.Args[0]).add(lp.lenOf(call.Args[1]), -1), ">="})
+			}
+			continue
+		}
+		be, ok := core.Unparen(f.Expr).(*ast.BinaryExpr)
+		if !ok {
+			continue
+		}
+		// emptiness of a string: s != "" gives len(s) >= 1, s == "" gives len(s) == 0
+		if lb, ok := lp.inf.Types[be.X]; ok && lb.Type != nil && (be.Op == token.EQL || be.Op == token.NEQ) {
+			if b, ok := lb.Type.Underlying().(*types.Basic); ok && b.Info()&types.IsString != 0 {
+				x, y := be.X, be.Y
+				if cv := core.ConstOf(lp.inf, x); cv != nil {
+					x, y = y, x
+				}
+				if cv := core.ConstOf(lp.inf, y); cv != nil && cv.ExactString() == `""` {
+					if (be.Op == token.EQL) == f.Val {
+						out = append(out, linFact{lp.lenOf(x), "=="})
+					} else {
+						out = append(out, linFact{lp.lenOf(x).add(linConst(1), -1), ">="})
+					}
+				}
+				continue
+			}
 		}
 		if lb, ok := lp.inf.Types[be.X]; !ok || lb.Type == nil {
 			continue
